@@ -27,7 +27,7 @@ type Env struct {
 	Srv      *server.GCAServer
 	live     atomic.Pointer[server.GCAServer] // the server object last seen by a hook (set during start-up too)
 	WithDisk bool
-	NoResp   bool // concurrent workloads: replies are not recorded (they cannot be matched to lock events)
+	NoResp   bool            // concurrent workloads: replies are not recorded (they cannot be matched to lock events)
 	Quiet    map[string]bool // hook events not recorded
 
 	wmu     sync.Mutex
